@@ -12,6 +12,7 @@ import (
 	"strconv"
 	"strings"
 	"sync"
+	"syscall"
 	"time"
 )
 
@@ -283,7 +284,24 @@ func RunParent(ch *Check, tier, bin string, extraEnv []string) int {
 			lf, _ := os.Create(logf)
 			cmd.Stdout = lf
 			cmd.Stderr = lf
-			err := cmd.Run()
+			// a worker never outlives its parent, and never runs for ever
+			cmd.SysProcAttr = &syscall.SysProcAttr{Pdeathsig: syscall.SIGKILL}
+			limit := 45 * time.Minute
+			if tier == "thorough" {
+				limit = 6 * time.Hour
+			}
+			err := cmd.Start()
+			if err == nil {
+				done := make(chan error, 1)
+				go func() { done <- cmd.Wait() }()
+				select {
+				case err = <-done:
+				case <-time.After(limit):
+					cmd.Process.Kill()
+					<-done
+					err = fmt.Errorf("worker exceeded %v (code under test does not terminate?)", limit)
+				}
+			}
 			lf.Close()
 			if err != nil {
 				lb, _ := os.ReadFile(logf)
